@@ -195,6 +195,8 @@ OPS: Dict[str, Op] = {
     "gloadss": _op(6, "P", 2, 1),
     "acct_params_get": _op(6, "P", 1, 2, ["acctparamf"]),
     # ---- v7
+    # assembler pseudo-op: `replace s` is replace2 s, bare `replace` is replace3
+    "replace": _op(7, "A", lambda i: 2 if i else 3, 1, ["u8opt"]),
     "replace2": _op(7, "A", 2, 1, ["u8"]),
     "replace3": _op(7, "A", 3, 1),
     "base64_decode": _op(7, "A", 1, 1, ["b64enc"], cost=None),
